@@ -520,7 +520,7 @@ class Evaluator:
                 # by-reference arguments: the value last stored into a stack temporary (None when the argument is not such a slot)
                 stack = env.get("__stack", {})
                 derefs = [stack.get(v) if isinstance(v, Poly) else None for v in vals]
-                self.extcalls.append((callee, vals, derefs))
+                self.extcalls.append((callee, vals, derefs, dict(stack)))
                 model = getattr(self, "external_model", None)
                 if model is not None:
                     # effects of the external routine on stack temporaries passed by address (output parameters): [(address, value)]
@@ -573,8 +573,18 @@ class Evaluator:
                 env[dst] = st[p]
                 return None
             raise Inconclusive("load from %r (not a stack temporary written on this path)" % p)
+        if op == "store" and re.match(r"^store (?:volatile )?(double|float) ", rhs):
+            # a floating point scalar passed by address (alpha / beta of a BLAS call): remembered as an opaque value when the slot is a stack temporary
+            mm = re.match(r"^store (?:volatile )?(\w+) (\S+), (.+?)\* (\S+?)(?:,.*)?$", rhs)
+            try:
+                v, p = self.val(mm.group(2), env), self.val(mm.group(4), env)
+            except Inconclusive:
+                return None
+            if isinstance(v, Poly) and isinstance(p, Poly) and any(sy.startswith("stack") for sy in p.symbols()):
+                env.setdefault("__stack", {})[p] = v
+            return None
         if op == "store" and not re.match(r"^store (?:volatile )?i64 ", rhs):
-            return None      # non-integer data (floating point scalars passed by address): not part of the index algebra
+            return None      # other non-integer data: not part of the index algebra
         if op == "store":
             mm = re.match(r"^store (.+?) (\S+), (.+?)\* (\S+?)(?:,.*)?$", rhs)
             v = self.val(mm.group(2), env)
